@@ -21,6 +21,21 @@ CHECKS = {
              "model says so (iff), newly issued numbers must be fresh, and a valid object handle must still denote the same object (CKA_LABEL).",
         note="Bounds: <=3 sessions (2 on A, 1 on B), <=2-3 live objects, depth 6 (quick) / 7 (thorough); merged key keeps saturating "
              "dead-handle counts so that counter-reset reuse is reachable; trusted base: p11sh, the Python lifetime model."),
+    "C01": dict(
+        category="model_checking", design_ref="DESIGN.md 3/C01",
+        technique="explicit-state BFS to fixpoint over login/session histories on the real library; full probe matrix (sessions x handles x entry points) evaluated in every state against the access rule of the statement",
+        text="All reachable login/session states (<=3+1 sessions, two tokens) are enumerated to a fixpoint; in each state every open session and every "
+             "freshly opened session is driven through every entry point that takes an object handle, the searches and the creators, for the 36-object grid "
+             "(9 classes x token/session x private/public); forbidden cells must fail, yield no handle and leak no attribute byte (only-if).",
+        note="Object classes and mechanisms as listed in the check; permitted cells are calibrated once and counted, not asserted; trusted base: p11sh, Python oracle."),
+    "C19": dict(
+        category="model_checking", design_ref="DESIGN.md 3/C19",
+        technique="exhaustive enumeration of (state x session x template x batch-size sequence) searches on the real library against a filter over the model population",
+        text="For every state reachable by short histories (logout/login/SO login, destroy, close of the owning session, label change, RO session) every "
+             "template of the menu is searched from every session with every batch-size sequence; the returned handles, mapped back to objects, must be "
+             "exactly the model's filter result, each object once, never more than asked per call.",
+        note="Fixed population (16 objects on A, 4 on B) and template menu (all singles, pairs of a reduced menu, selected triples); model attribute values "
+             "are read once through C_GetAttributeValue; history depth 2 (quick) / 3 (thorough)."),
 }
 
 NOT_YET = "check under construction in this session; not claimed yet (DESIGN.md Appendix D gives the build order)"
